@@ -272,11 +272,25 @@ def complex_Y(l, m, polar, azim):
     return val
 
 
+class SciPyDomainError(Exception):
+    """the stub's precondition: scipy.special.sph_harm_y documents its polar argument as lying in [0, pi]; outside it the compiled routine does
+    not follow the analytic continuation of the definition (it evaluates through |sin|), so a call there is reported instead of being modelled."""
+
+
+def _check_polar_domain(polar):
+    for a_ in np.asarray(polar, dtype=object).ravel():
+        r_ = getattr(a_, "rng", None)
+        if isinstance(a_, Ang) and (r_ is None or r_[0] < -1e-12 or r_[1] > math.pi + 1e-12):
+            raise SciPyDomainError(f"scipy.special.sph_harm_y called with a polar angle whose representative is not known to lie in [0, pi] (declared range {r_})")
+
+
 def install_scipy_stubs(ut):
     def sph_harm_y(l, m, polar, azim):
+        _check_polar_domain(polar)
         return arr([complex_Y(int(l), int(m), polar[k], azim[k]) for k in range(len(polar))])
 
     def sph_harm_y_all(lmax, mmax, polar, azim):
+        _check_polar_domain(polar)
         out = np.empty((lmax + 1, 2 * mmax + 1, len(polar)), dtype=object)
         for l in range(lmax + 1):
             for mi in range(2 * mmax + 1):
@@ -294,8 +308,10 @@ def job_derivative(ctx: Ctx, lmax):
     e = ctx.engine
     sym.Engine.cur = e
     ctx.encoded(ut.generate_derivative_real_spherical_harmonics, ut.generate_real_spherical_harmonics_scipy)
+    import math
     t, p = Ang.free("t", e), Ang.free("p", e)
     e.assume(p.s > K(Fraction(1, 100)))       # away from the poles
+    p.rng = (0.0, math.pi)                    # representative of the polar angle declared inside the principal range (code may compare phi with 0 and pi)
     key = "derivative_real_spherical_harmonics"
     ctx.bounds.update(dict(l_max=lmax, angles="arbitrary azimuth, polar angle away from the poles (sin phi > 0.01)"))
     rows = horton_pure_rows(lmax)
@@ -330,6 +346,54 @@ def job_derivative(ctx: Ctx, lmax):
             ctx.eq(f"row {k}: d/dphi routine == dY/dphi (away from the poles)", D[1, k, 0], d_angle(Y[k, 0], p), q.pc, assume=[p.s > 0], replay=rp, key=key + ":phi")
 
 
+def job_scipy_outside(ctx: Ctx, lmax, side):
+    """the SciPy-based implementation for a polar angle whose representative lies outside [0, pi] (below 0 / between pi and 2 pi): still the recursion's value."""
+    import math
+    ut = _mod()
+    npproxy.install(ut)
+    install_scipy_stubs(ut)
+    e = ctx.engine
+    sym.Engine.cur = e
+    ctx.encoded(ut.generate_real_spherical_harmonics_scipy, ut.generate_real_spherical_harmonics, ut.generate_derivative_real_spherical_harmonics)
+    t, p = Ang.free("t", e), Ang.free("p", e)
+    if side == "negative":
+        p.rng = (-math.pi, 0.0)
+        e.assume(p.s < K(Fraction(-1, 100)))
+    else:
+        p.rng = (math.pi, 2 * math.pi)
+        e.assume(p.s < K(Fraction(-1, 100)))
+    rows = horton_pure_rows(lmax)
+
+    def rp(m):
+        with unpatched(ut):
+            import importlib
+            ut2 = importlib.reload(importlib.import_module("grid.utils"))
+            th, ph = ang_value(m, "t", 0.7), ang_value(m, "p", -1.1)
+            ph = -abs(ph) if side == "negative" else 2 * math.pi - abs(ph)
+            a = np.asarray(ut2.generate_real_spherical_harmonics(lmax, np.array([th]), np.array([ph])), float)[:, 0]
+            b = np.asarray(ut2.generate_real_spherical_harmonics_scipy(lmax, np.array([th]), np.array([ph])), float)[:, 0]
+            D = np.asarray(ut2.generate_derivative_real_spherical_harmonics(lmax, np.array([th]), np.array([ph])), float)[:, :, 0]
+            h = 1e-6
+            f = lambda a_, b_: float_Y(ut2, lmax, a_, b_)
+            dth, dph = (f(th + h, ph) - f(th - h, ph)) / (2 * h), (f(th, ph + h) - f(th, ph - h)) / (2 * h)
+            install_scipy_stubs(ut)
+            bad = not np.allclose(a, b, atol=1e-10) or not np.allclose(D[0], dth, atol=1e-6) or not np.allclose(D[1], dph, atol=1e-6)
+            return bad, dict(theta=th, phi=ph, recursion=a.tolist(), scipy_based=b.tolist(), d_phi=D[1].tolist(), finite_difference_phi=dph.tolist())
+    for q in e.run(lambda: (ut.generate_real_spherical_harmonics(lmax, arr([t]), arr([p])), ut.generate_real_spherical_harmonics_scipy(lmax, arr([t]), arr([p])),
+                            ut.generate_derivative_real_spherical_harmonics(lmax, arr([t]), arr([p])))):
+        ctx.paths += 1
+        if q.exc is not None:
+            ctx.fail("harmonics routines evaluate", f"{type(q.exc).__name__}: {str(q.exc)[:200]}", key="real_spherical_harmonics_scipy:outside", replay=rp, model=ctx.model_for(q.pc) or {})
+            continue
+        if ctx.twin(q.pc) == "unsat":
+            continue
+        Y, Ysp, D = q.result
+        for k, (l, mm, kind) in enumerate(rows):
+            ctx.eq(f"row {k} (l={l}, m={mm}{kind}): SciPy-based implementation == recursion for a polar angle {side} of the principal range", Ysp[k, 0], Y[k, 0], q.pc, replay=rp, key="real_spherical_harmonics_scipy:outside")
+            ctx.eq(f"row {k}: d/dtheta routine == dY/dtheta for a polar angle {side} of the principal range", D[0, k, 0], d_angle(Y[k, 0], t), q.pc, replay=rp, key="derivative_real_spherical_harmonics:outside")
+            ctx.eq(f"row {k}: d/dphi routine == dY/dphi for a polar angle {side} of the principal range", D[1, k, 0], d_angle(Y[k, 0], p), q.pc, replay=rp, key="derivative_real_spherical_harmonics:outside")
+
+
 def job_ground_float(ctx: Ctx):
     """floating-point complements that real-number reasoning cannot see (ground checks on the float code, reported as such):
     high degrees (range of the normalisation factors) and the pole convention of the derivative routine at phi = 0 and phi = pi exactly."""
@@ -353,18 +417,31 @@ def job_ground_float(ctx: Ctx):
         rhs = (2 * l + 1) / (4 * np.pi) * float(eval_legendre(l, cg))
         if abs(lhs - rhs) > 1e-7 * (2 * l + 1):
             bad[f"addition theorem l={l}"] = dict(sum=lhs, expected=rhs)
+    # both implementations on polar angles outside [0, pi] (and azimuths outside [0, 2 pi])
+    th2, ph2 = np.array([0.3, 1.2, 4.0, -2.0, 7.5, -0.4]), np.array([-0.5, 4.0, 5.5, -2.0, 7.0, 9.0])
+    a2 = np.asarray(ut.generate_real_spherical_harmonics(5, th2, ph2), float)
+    b2 = np.asarray(ut.generate_real_spherical_harmonics_scipy(5, th2, ph2), float)
+    if not np.all(np.isfinite(a2)) or not np.allclose(a2, b2, atol=1e-9):
+        rows = np.where(np.max(np.abs(a2 - b2), axis=1) > 1e-9)[0].tolist()
+        bad["implementations agree for polar angles outside [0, pi]"] = dict(max_abs_difference=float(np.nanmax(np.abs(a2 - b2))), rows_differing=rows[:12], polar_angles=ph2.tolist())
+    D2 = np.asarray(ut.generate_derivative_real_spherical_harmonics(5, th2, ph2), float)
+    hh = 1e-6
+    f2 = lambda a_, b_: np.asarray(ut.generate_real_spherical_harmonics(5, a_, b_), float)
+    dth2, dph2 = (f2(th2 + hh, ph2) - f2(th2 - hh, ph2)) / (2 * hh), (f2(th2, ph2 + hh) - f2(th2, ph2 - hh)) / (2 * hh)
+    if not np.allclose(D2[0], dth2, atol=1e-6) or not np.allclose(D2[1], dph2, atol=1e-6):
+        bad["derivative routine == finite differences for polar angles outside [0, pi]"] = dict(max_error_theta=float(np.max(np.abs(D2[0] - dth2))), max_error_phi=float(np.max(np.abs(D2[1] - dph2))))
     for pole in (0.0, float(np.pi)):
         D = np.asarray(ut.generate_derivative_real_spherical_harmonics(6, np.array([0.3, 2.0, -1.0]), np.array([pole] * 3)), float)
         if not np.all(np.isfinite(D)) or np.max(np.abs(D[1])) > 1e-12:
             bad[f"dY/dphi at phi={pole}"] = dict(max_abs=float(np.nanmax(np.abs(D[1]))))
-    (ctx.ok if not bad else ctx.fail)("float code: recursion == SciPy implementation and addition theorem up to l_max = 200; polar derivative exactly 0 at phi = 0 and phi = pi", detail=str(bad)[:300],
+    (ctx.ok if not bad else ctx.fail)("float code: recursion == SciPy implementation (also for polar angles outside [0, pi]) and addition theorem up to l_max = 200; polar derivative exactly 0 at phi = 0 and phi = pi", detail=str(bad)[:300],
                                       key="real_spherical_harmonics:float-range-and-poles", how="ground enumeration (not a solver obligation)", replay=(lambda m: (True, bad)), **({} if not bad else dict(model={})))
     ctx.twins_sat += 1
 
 
 def jobs(tier):
     js = [Job(f"harmonics/lmax={6 if tier == 'quick' else 12}", job_harmonics, 6 if tier == "quick" else 12), Job("solid", job_solid, 6 if tier == "quick" else 10),
-          Job(f"derivative+scipy/lmax={3 if tier == 'quick' else 6}", job_derivative, 3 if tier == "quick" else 6), Job("ground/float", job_ground_float), Job("cart_to_sph/centre", job_cart_to_sph, True), Job("cart_to_sph/origin", job_cart_to_sph, False), Job("jacobian", job_jacobian)]
+          Job(f"derivative+scipy/lmax={3 if tier == 'quick' else 6}", job_derivative, 3 if tier == "quick" else 6), Job("scipy/phi-negative", job_scipy_outside, 3, "negative"), Job("scipy/phi-beyond-pi", job_scipy_outside, 3, "beyond"), Job("ground/float", job_ground_float), Job("cart_to_sph/centre", job_cart_to_sph, True), Job("cart_to_sph/origin", job_cart_to_sph, False), Job("jacobian", job_jacobian)]
     only = os.environ.get("SYMGRID_ONLY")
     return [j for j in js if not only or only in j.name]
 
@@ -377,7 +454,7 @@ def main():
         bounds=dict(l_max="6 (quick) / 12 (thorough)", angles="arbitrary (unit-circle pairs), both poles explicitly", conversion="symbolic point and centre, all branches (generic, z-axis, at the centre)"),
         outside=["SciPy's compiled Y_l^m itself: generate_real_spherical_harmonics_scipy and generate_derivative_real_spherical_harmonics are executed with sph_harm_y / sph_harm_y_all replaced by the documented "
                  "definition (Condon-Shortley phase), l_max <= 3 (quick) / 6; the pole convention of the derivative routine (exact tan(phi) = 0) is forked but its floating-point mask is not modelled", "high degrees (numerical range of the recursion, e.g. overflow beyond l ~ 150)", "IEEE rounding at the poles (tan(pi) != 0 in floating point)"],
-        assumptions=["stub contract: scipy.special.sph_harm_y(l, m, polar, azimuth) = sqrt((2l+1)/(4pi) (l-m)!/(l+m)!) P_l^m(cos polar) exp(i m azimuth) with Condon-Shortley phase", "angles are points of the unit circle; trigonometric identities reduce by sin^2 -> 1 - cos^2 in the normaliser", "regular solid harmonics l <= 3 re-typed in Cartesian form as the independent definition"])
+        assumptions=["stub contract: scipy.special.sph_harm_y(l, m, polar, azimuth) = sqrt((2l+1)/(4pi) (l-m)!/(l+m)!) P_l^m(cos polar) exp(i m azimuth) with Condon-Shortley phase, for a polar angle in [0, pi] only (a call outside that documented domain is reported as a violation candidate and replayed on the float code)", "angles are points of the unit circle; trigonometric identities reduce by sin^2 -> 1 - cos^2 in the normaliser", "regular solid harmonics l <= 3 re-typed in Cartesian form as the independent definition"])
 
 
 if __name__ == "__main__":
